@@ -187,6 +187,55 @@ func c19SessionSweep() []c19Session {
 			Probes: []string{"(let ((i (make-instance 'zqfd))) (list (send i :a) (send i :b) (send i :c) (send i :d)))"}})
 	add("defflavor/instance-variable", c19Def{Kind: "defflavor", Name: "zqfa", Forms: []string{"(defflavor zqfa ((a 1) (l nil)) () :gettable-instance-variables :settable-instance-variables :inittable-instance-variables)"}},
 		c19D("defvar", "zqi", []string{"(defvar zqi (make-instance 'zqfa :a 5))", "(send zqi :set-l '(x \"y\" 2))"}, "(send zqi :a)", "(send zqi :l)"))
+	add("defflavor/instance-slot-nil", c19Def{Kind: "defflavor", Name: "zqfa", Forms: []string{"(defflavor zqfa ((a 1) (b t) c) () :gettable-instance-variables :settable-instance-variables :inittable-instance-variables)"}},
+		c19D("defvar", "zqi", []string{"(defvar zqi (make-instance 'zqfa))", "(setf (slot-value zqi 'a) nil)", "(send zqi :set-b nil)"},
+			"(list (send zqi :a) (send zqi :b) (send zqi :c))"))
+	add("defflavor/instance-slot-unbound", c19Def{Kind: "defflavor", Name: "zqfa", Forms: []string{"(defflavor zqfa ((a 1) (b 2)) () :gettable-instance-variables)"}},
+		c19D("defvar", "zqi", []string{"(defvar zqi (make-instance 'zqfa))", "(slot-makunbound zqi 'a)"}, "(list (slot-boundp zqi 'a) (slot-boundp zqi 'b) (send zqi :b))"))
+	add("defflavor/instance-of-child-flavor", c19Def{Kind: "defflavor", Name: "zqfa", Forms: []string{"(defflavor zqfa ((a 1)) () :gettable-instance-variables :settable-instance-variables)"}},
+		c19Def{Kind: "defflavor", Name: "zqfb", Deps: []string{"zqfa"}, Forms: []string{"(defflavor zqfb ((a 2) (b 3)) (zqfa) :gettable-instance-variables :settable-instance-variables)"}},
+		c19D("defvar", "zqi", []string{"(defvar zqi (make-instance 'zqfb))", "(send zqi :set-a nil)", "(send zqi :set-b 1)"}, "(list (send zqi :a) (send zqi :b))"))
+	add("defflavor/method-override-chain", c19Def{Kind: "defflavor", Name: "zqfa", Forms: []string{"(defflavor zqfa ((a 1)) ())", "(defmethod (zqfa :who) () (list 'a a))",
+		"(defmethod (zqfa :before :who) () (setq a (+ a 10)))"}, Probes: []string{"(send (make-instance 'zqfa) :who)"}},
+		c19Def{Kind: "defflavor", Name: "zqfb", Deps: []string{"zqfa"}, Forms: []string{"(defflavor zqfb () (zqfa))", "(defmethod (zqfb :who) () (list 'b a))"},
+			Probes: []string{"(send (make-instance 'zqfb) :who)"}},
+		c19Def{Kind: "defflavor", Name: "zqfc", Deps: []string{"zqfb"}, Forms: []string{"(defflavor zqfc () (zqfb))", "(defmethod (zqfc :who) () (list 'a a))",
+			"(defmethod (zqfc :after :who) () (setq a 0))"}, Probes: []string{"(send (make-instance 'zqfc) :who)", "(let ((i (make-instance 'zqfc))) (send i :who) (slot-value i 'a))"}},
+		c19Def{Kind: "defflavor", Name: "zqfd", Deps: []string{"zqfc"}, Forms: []string{"(defflavor zqfd () (zqfc))"}, Probes: []string{"(send (make-instance 'zqfd) :who)"}})
+	// the flavor worlds of leg A3 (chains, diamonds, mixins re-declaring the same variables) as sessions
+	for _, w := range c19FlavSweep() {
+		var defs []c19Def
+		vars := map[string][]string{}
+		forms := w.forms("zqs-")
+		for i, fd := range w.Defs {
+			var all []string
+			seen := map[string]bool{}
+			for _, v := range fd.Vars {
+				if !seen[v.Name] {
+					seen[v.Name] = true
+					all = append(all, v.Name)
+				}
+			}
+			d := c19Def{Kind: "defflavor", Name: "zqs-" + fd.Name, Forms: []string{forms[i]}}
+			for _, cn := range fd.Comps {
+				d.Deps = append(d.Deps, "zqs-"+cn)
+				for _, v := range vars[cn] {
+					if !seen[v] {
+						seen[v] = true
+						all = append(all, v)
+					}
+				}
+			}
+			vars[fd.Name] = all
+			sv := make([]string, len(all))
+			for j, v := range all {
+				sv[j] = fmt.Sprintf("(list '%s (slot-value i '%s) (send i :%s))", v, v, v)
+			}
+			d.Probes = []string{fmt.Sprintf("(let ((i (make-instance 'zqs-%s))) (list %s))", fd.Name, strings.Join(sv, " "))}
+			defs = append(defs, d)
+		}
+		add("defflavor/world-"+w.Cell, defs...)
+	}
 	// the witness of the comparator: one base flavor, flavors that inherit it, unrelated flavors
 	for _, n := range []int{3, 9, 14} {
 		var defs []c19Def
@@ -255,8 +304,9 @@ func c19SessionSweep() []c19Session {
 // composite sessions
 
 type c19SessGen struct {
-	pkgs    []string // user packages defined so far
-	noCalls bool     // (state) no calls of user functions in the expression being generated
+	fvars   map[string][]string // flavor -> every instance variable it has (own and inherited)
+	pkgs    []string            // user packages defined so far
+	noCalls bool                // (state) no calls of user functions in the expression being generated
 	r       *lib.Rng
 	listed  func(cell string) bool
 	n       int
@@ -475,8 +525,46 @@ func (g *c19SessGen) addDef() {
 			}
 		}
 		d.Deps = comps
+		// shared instance variables, declared again and again along the inheritance paths with
+		// defaults from a small pool: a flavor sets a variable back to the value of a distant
+		// ancestor while a nearer one overrides it (nil included)
+		all := []string{iv}
+		if !g.listed("defflavor/world-chain/5/1/5") {
+			for _, sv := range []string{"zqva", "zqvb"} {
+				if r.Chance(60) {
+					dflt := []string{"", "nil", "1", "2", "\"s\"", "'q", "t"}[r.Intn(7)]
+					if dflt == "" {
+						ivs += " " + sv
+					} else {
+						ivs += fmt.Sprintf(" (%s %s)", sv, dflt)
+					}
+					all = append(all, sv)
+				}
+			}
+		}
+		if g.fvars == nil {
+			g.fvars = map[string][]string{}
+		}
+		for _, cn := range comps {
+			for _, v := range g.fvars[cn] {
+				dup := false
+				for _, a := range all {
+					dup = dup || a == v
+				}
+				if !dup {
+					all = append(all, v)
+				}
+			}
+		}
+		g.fvars[name] = all
 		d.Forms = []string{fmt.Sprintf("(defflavor %s (%s) (%s) :gettable-instance-variables :settable-instance-variables :inittable-instance-variables)", name, ivs, strings.Join(comps, " "))}
 		d.Probes = []string{fmt.Sprintf("(let ((i (make-instance '%s))) (send i :%s))", name, iv), fmt.Sprintf("(let ((i (make-instance '%s :%s 77))) (send i :set-%s (+ 1 (send i :%s))) (send i :%s))", name, iv, iv, iv, iv)}
+		// behaviour of the restored flavor: the value of EVERY instance variable of a fresh instance
+		sv := make([]string, len(all))
+		for i, v := range all {
+			sv[i] = fmt.Sprintf("(list '%s (slot-value i '%s))", v, v)
+		}
+		d.Probes = append(d.Probes, fmt.Sprintf("(let ((i (make-instance '%s))) (list %s))", name, strings.Join(sv, " ")))
 		if !g.listed("defflavor/method") && r.Chance(60) {
 			m := g.name("msg")
 			// flavors and their methods are written before the functions: no calls of user functions
